@@ -97,14 +97,15 @@ theorem mapReach (q : Node → Bool) (ok) (B : Node) (c : Nat) (g : Node → M N
     · have := ih s1 hs1 hg.2 hfin hfo (by omega)
       omega
 
-/-- **every block statement of a tree is entered.**  Whatever node the block visitor is started on, in
-    any state that is not cancelled: unless the run is cancelled or out of fuel, every block statement `B`
-    occurring in it — at any depth, inside nested functions, closures, classes — comes back with at least
-    one hook call of the expected name and span for every operation required in its statements. -/
-theorem blockVisit_reach (ok) (cfg : Config) (hcfg : CfgOk ok cfg) (d : String) (sp0 : Span) (B : Node) (opFuel : Nat) :
+/-- the traversal reaches every occurrence of the block `B`: whatever is guaranteed (`c` hook calls of the
+    site) when the block visitor stands on `B` itself (`hself`) holds for every node that contains `B` -/
+theorem blockVisit_reach_gen (ok) (cfg : Config) (hcfg : CfgOk ok cfg) (d : String) (sp0 : Span) (B : Node) (opFuel : Nat) (c : Nat)
+    (hself : ∀ (f : Nat) (ss : List Node) (sp : Span) (s : St), StOk s → goodW ok true (.block ss sp) = true →
+      StOk (blockVisit cfg opFuel (f + 1) (.block ss sp) s).2 → (blockVisit cfg opFuel (f + 1) (.block ss sp) s).2.fuelOut = false →
+      Node.block ss sp = B → c ≤ cq (qAt d sp0) (blockVisit cfg opFuel (f + 1) (.block ss sp) s).1) :
     ∀ (f : Nat) (n : Node) (s : St), StOk s → goodW ok true n = true → StOk (blockVisit cfg opFuel f n s).2 →
       (blockVisit cfg opFuel f n s).2.fuelOut = false → 1 ≤ cb B n →
-      RL cfg d sp0 (stmtsOf B) ≤ cq (qAt d sp0) (blockVisit cfg opFuel f n s).1 := by
+      c ≤ cq (qAt d sp0) (blockVisit cfg opFuel f n s).1 := by
   intro f
   induction f with
   | zero =>
@@ -113,7 +114,7 @@ theorem blockVisit_reach (ok) (cfg : Config) (hcfg : CfgOk ok cfg) (d : String) 
     cases hfo
   | succ f ih =>
     intro n s hs hg hfin hfo hpos
-    have hlist := mapReach (qAt d sp0) ok B (RL cfg d sp0 (stmtsOf B)) (blockVisit cfg opFuel f)
+    have hlist := mapReach (qAt d sp0) ok B c (blockVisit cfg opFuel f)
       (fun k s hs hg hf hfo hp => ih k s hs hg hf hfo hp)
       (fun k s hs hg => blockVisit_spec ok cfg hcfg opFuel f k s hs hg)
       (fun k s h => blockVisit_canc cfg opFuel f k s h)
@@ -121,13 +122,11 @@ theorem blockVisit_reach (ok) (cfg : Config) (hcfg : CfgOk ok cfg) (d : String) 
     · cases n with
       | block ss sp =>
         rw [cb_block] at hpos
-        by_cases hself : Node.beq (.block ss sp) B = true
+        by_cases hself' : Node.beq (.block ss sp) B = true
         · -- the block itself
-          have hB := beq_eq _ _ hself
-          subst hB
-          exact block_cover ok cfg hcfg d sp0 opFuel f ss sp s hs hg hfin hfo
+          exact hself f ss sp s hs hg hfin hfo (beq_eq _ _ hself')
         · -- a block nested in one of its statements
-          simp only [hself, Bool.false_eq_true, if_false, Nat.zero_add] at hpos
+          simp only [hself', Bool.false_eq_true, if_false, Nat.zero_add] at hpos
           rw [good_block] at hg
           simp only [if_true, Bool.and_eq_true, beq_iff_eq] at hg
           rw [blockVisit_block cfg opFuel f ss sp s hs] at hfin hfo ⊢
@@ -169,7 +168,7 @@ theorem blockVisit_reach (ok) (cfg : Config) (hcfg : CfgOk ok cfg) (d : String) 
       have hbr := blockVisit_BR cfg opFuel (f + 1) n s
       rw [blockVisit_generic cfg opFuel f n hb] at hfin hfo hbr ⊢
       rw [cq_eq' _ (mapKidsM mapM' (blockVisit cfg opFuel f) n s).1]
-      suffices hk : RL cfg d sp0 (stmtsOf B) ≤ cqL (qAt d sp0) (mapKidsM mapM' (blockVisit cfg opFuel f) n s).1.kids by omega
+      suffices hk : c ≤ cqL (qAt d sp0) (mapKidsM mapM' (blockVisit cfg opFuel f) n s).1.kids by omega
       have hspec := mapBlock_spec ok (blockVisit cfg opFuel f)
         (fun k s hs hg => blockVisit_spec ok cfg hcfg opFuel f k s hs hg)
         (fun k s h => blockVisit_canc cfg opFuel f k s h)
@@ -201,5 +200,17 @@ theorem blockVisit_reach (ok) (cfg : Config) (hcfg : CfgOk ok cfg) (d : String) 
         have e3 := hlist args s1 (e1.stOk hs) hg'.2 hfin hfo hpos
         simp only [withKids, List.getD_cons_zero, List.drop_succ_cons, List.drop_zero, kids, cqL_cons]
         omega
+
+/-- **every block statement of a tree is entered.**  Whatever node the block visitor is started on, in
+    any state that is not cancelled: unless the run is cancelled or out of fuel, every block statement `B`
+    occurring in it — at any depth, inside nested functions, closures, classes — comes back with at least
+    one hook call of the expected name and span for every operation required in its statements. -/
+theorem blockVisit_reach (ok) (cfg : Config) (hcfg : CfgOk ok cfg) (d : String) (sp0 : Span) (B : Node) (opFuel : Nat) :
+    ∀ (f : Nat) (n : Node) (s : St), StOk s → goodW ok true n = true → StOk (blockVisit cfg opFuel f n s).2 →
+      (blockVisit cfg opFuel f n s).2.fuelOut = false → 1 ≤ cb B n →
+      RL cfg d sp0 (stmtsOf B) ≤ cq (qAt d sp0) (blockVisit cfg opFuel f n s).1 :=
+  blockVisit_reach_gen ok cfg hcfg d sp0 B opFuel _ (fun f ss sp s hs hg hfin hfo hB => by
+    subst hB
+    exact block_cover ok cfg hcfg d sp0 opFuel f ss sp s hs hg hfin hfo)
 
 end IastModel
